@@ -1084,7 +1084,7 @@ class OpsStream(Stream):
     SMALL: list = []  # exhaustive to length 4 (thorough)
     TINY: list = []  # exhaustive to length 5 (thorough)
     quick_random = 400
-    thorough_random = 6000
+    thorough_random = 3000
 
     def mk(self, init, ops, all_=0):
         return {"init": init, "ops": [list(o) for o in ops], "all": all_}
@@ -1102,8 +1102,10 @@ class OpsStream(Stream):
         if tier == "quick":
             plan = [(self.FULL, 1, self.inits), (self.FULL, 2, self.inits[:2]), (self.CORE, 3, self.inits[:2])]
         else:
-            plan = [(self.FULL, 2, self.inits), (self.CORE, 3, self.inits), (self.SMALL, 4, self.inits[:2]), (self.TINY, 5, self.inits[:2])]
-            if len(self.FULL) ** 3 <= 100000:
+            # sized so that the base pass of the whole check stays near 2-3 min (the thorough tier
+            # then keeps exploring with derived seeds for VERIF_THOROUGH_SECONDS)
+            plan = [(self.FULL, 2, self.inits), (self.CORE, 3, self.inits[:3]), (self.SMALL, 4, self.inits[:1]), (self.TINY, 5, self.inits[:1])]
+            if len(self.FULL) ** 3 <= 40000:
                 plan.append((self.FULL, 3, self.inits[:1]))
         for alphabet, n, inits in plan:
             for init in inits:
@@ -2091,7 +2093,7 @@ class CopyHeapStream(Stream):
                         continue
                     for ops in itertools.product(alpha, repeat=n):
                         yield {"how": how, "init": init, "ops": [list(o) for o in ops]}
-        for _ in range(400 if tier == "quick" else 8000):
+        for _ in range(400 if tier == "quick" else 4000):
             yield {"how": rng.choice(self.HOWS), "init": rng.choice(self.INITS), "ops": [list(rng.choice(alpha)) for _ in range(rng.randrange(3, 9))]}
 
     def run(self, case):
@@ -2408,10 +2410,11 @@ class ProbeStream(Stream):
 
 CHECK = Check(
     prop="C08",
-    gen=["Containers", "PyFns_Headers", "PyFns_HeaderSet"],
-    modules=["WzVerif.Props.C08", "WzVerif.Props.C08T"],
+    gen=["Containers", "PyFns_Headers", "PyFns_HeaderSet", "PyFns_MultiDict"],
+    modules=["WzVerif.Props.C08", "WzVerif.Props.C08T", "WzVerif.Props.C08T2"],
     streams=[MultiDictStream(), HeadersStream(), HeaderSetStream(), CombinedStream(), ImmutableStream(), EnvironStream(), TypeConvStream(), CopyHeapStream(), ImmutablePlainStream(), ProbeStream(), PreludeKernels()],
     assumptions=[
+        "C08T2 (MultiDict methods as regenerated from the source): the object is its dict of lists, an insertion-ordered association list (keys are texts, the value type is a parameter); super().<dict method> are the prelude's dict primitives (kernel rows dictops); dict.setdefault(key, []).append(value) is modelled as storing the old list plus the value; iter_multi_items(mapping) is handed over as the flat list of pairs; getlist's type callable answers a value or raises ValueError / TypeError",
         "Headers.add / set / _del_key / remove (called without keyword arguments, str values), _str_header_value and HeaderSet.update / add / remove / discard / __setitem__ are regenerated from the source by tools/py2lean.py (Gen/PyFns_Headers.lean, Gen/PyFns_HeaderSet.lean) on every run and proved equal to the hand model for all inputs (Props/C08T): the object's attributes are threaded through as explicit state, on_update is modelled as a flag, an iterator as the list of items not yet consumed; list / set mutation primitives are modelled in Util/PyPrelude.lean and validated by stream prelude-kernels",
         "CPython dict (insertion order, re-insertion keeps position, popitem takes the last entry), list indexing/simple slices and str.lower/upper/title on ASCII text are modelled primitives (Model.Containers.PyDict, Model.Headers.pyIdx/sliceBounds), validated by the ops-* streams, not verified",
         "type conversion callables (get/getlist type=) are a parameter of the model; the streams use int on an optional sign + ASCII digits",
